@@ -11,7 +11,7 @@ BOUNDS = ("Container.transfer / Plate.transfer from arbitrary valid pre-states: 
           "(wells hold water+NaCl+lipase on the source side, water on the destination side), quantity symbolic in "
           "[0, 1e6] of its unit; units uL/mg (quick) + umol/U/mL/g/kU/mmol (thorough); plates 2x3 (and 1x1 sources); "
           "23 geometries: row->row, col->col, rect->rect, stepped, lists, 1->all, all->1, whole Plate on either side, "
-          "container->plate/list, plate/slice->container, slices of slices (3), same plate disjoint (5, two with slices of slices) and overlapping (3), two distinct plates sharing a name, container into "
+          "container->plate/list, plate/slice->container, slices of slices (3), same plate disjoint (5, two with slices of slices) and overlapping (3), two distinct plates sharing a name, a replicate plate (same name and identical wells), container into "
           "itself; 'tight' cells assume 0 <= q < held in every addressed source well (one path per geometry), 'free' "
           "cells (2 wells) assume nothing about q so refusals and exact-depletion paths are explored too. Lite "
           "rounding model.")
@@ -50,6 +50,8 @@ GEOMS = {
     'row->list1': ((1, S(None)), [(0, 0), (0, 1), (0, 2)], [(2, 2)], [(1, 1)], False),
     'same/list1->row': (['B:2'], [(1, 1)], (1, S(None)), [(0, 0), (0, 1), (0, 2)], True),
     'samename/row->row': ((1, S(None)), [(0, 0), (0, 1), (0, 2)], (2, S(None)), [(1, 0), (1, 1), (1, 2)], False, (2, 3), 'P'),
+    # a replicate plate: a second, distinct plate with the same name, labels and identical wells at the moment of the transfer
+    'twin/row->row': ((1, S(None)), [(0, 0), (0, 1), (0, 2)], (2, S(None)), [(1, 0), (1, 1), (1, 2)], False, (2, 3), 'TWIN'),
     'overlap/row->same-row': ((1, S(None)), [(0, 0), (0, 1), (0, 2)], (1, S(None)), [(0, 0), (0, 1), (0, 2)], True),
     'overlap/shifted': ((1, S(1, 2)), [(0, 0), (0, 1)], (1, S(2, 3)), [(0, 1), (0, 2)], True),
     'overlap/well->row': ('A:1', [(0, 0)], (1, S(None)), [(0, 0), (0, 1), (0, 2)], True),
@@ -154,7 +156,11 @@ def h_conserve(h):
         dst_arg = select(objs['P'], dst_sel)
     else:
         # (a geometry may ask for a destination plate that shares the source plate's *name*: two distinct plates)
-        objs['Q'] = _mk_plate(h, lib, geom[6] if len(geom) > 6 else 'Q', shape, ['water'], lo, hi, tag='Q')
+        if len(geom) > 6 and geom[6] == 'TWIN':
+            from copy import deepcopy
+            objs['Q'] = deepcopy(objs['P'])
+        else:
+            objs['Q'] = _mk_plate(h, lib, geom[6] if len(geom) > 6 else 'Q', shape, ['water'], lo, hi, tag='Q')
         dst_arg = select(objs['Q'], dst_sel)
 
     n_dst = len(dst_cells) if dst_cells else 1
